@@ -18,7 +18,7 @@ def c02(tier):
     ]
 
     def relevant(mm, sess, runs):
-        return mm['kind'] == 'conformance'
+        return mm['kind'] in ('conformance', 'abort')
 
     def extra(sessions, ends):
         n = {1: 0, 2: 0, 3: 0, 4: 0}
